@@ -2,7 +2,7 @@ import GramModel.Lemmas.ArmsTie
 import GramModel.Lemmas.Print
 import GramModel.Lemmas.PrintDerives
 import GramModel.Lemmas.PrintLex
-import GramModel.Lemmas.ParsePrinted16
+import GramModel.Lemmas.ParsePrinted20
 
 /-!
 # C16 — printed terms read back as the same term (the printer side)
@@ -701,8 +701,9 @@ example : ∃ (toks : Array PModel.PTok) (t : Tm), PrintDerives.noImplicitArrow 
 
 /-- The whole round trip (PENDING — the parse phase is `C16_parse_printed`, the applications pass on chains is
 `C16_printed_application_left_nested`; the applications pass on the whole tree is `C16_reassoc_applications_printed`, the other two passes on fully
-parenthesised trees `C16_chain_passes_identity`; not proved: the link between them (`C16_reassoc_printed_stmt`) and name
-resolution (`C16_resolve_printed_stmt`).  Checked by
+parenthesised trees `C16_chain_passes_identity`; all three passes `C16_reassoc_printed`; name resolution is proved for terms without definition group
+(`C16_resolve_printed_nolet`, whole round trip `C16_read_back_nolet`); not proved: name resolution of definition groups
+(`C16_resolve_printed_stmt`).  Checked by
 evaluation of the model on sample terms with binders, arrows, definition groups and operator chains.)  `PModel.readBack` =
 parse phase, the three re-association passes, `resolve_variables` in the scope `names` (outermost first), ranges forgotten;
 `PModel.scopedOK` = hole-free, every variable carries the de Bruijn index of its name in the scope, binder names are not the
@@ -755,10 +756,10 @@ example : PModel.OK23 (.mk ⟨0, 9⟩ false (.bin .prod (.mk ⟨0, 1⟩ false (.
     (.mk ⟨4, 9⟩ true (.bin .prod (.mk ⟨5, 6⟩ false (.var 2) []) (.mk ⟨8, 9⟩ false (.var 3) [])) [])) []) := by
   simp [PModel.OK23, PModel.OK23V, PModel.At23, PModel.isBinV, PModel.Src.group, PModel.Src.variant]
 
-/-- Stage A, complete (PENDING: `C16_reassoc_applications_printed` and `C16_chain_passes_identity` are proved; the missing
-link is that the output of the applications pass on the parsed tree is fully parenthesised, `PModel.OK23`, which needs the
-chain theorem `C16_chain_left_nested` with the structure of the result and not only its `strip`): the three passes on the
-parsed tree of a printed term return the tree of the term itself. -/
+/-- **Stage A, complete**: the three re-association passes on the parsed tree of a printed term succeed and return the
+tree of the term itself (`PModel.lsrc I nm t`) up to ranges, `group` flags and error lists.  (The applications pass makes
+every chain left-nested and returns a fully parenthesised tree in which binary-operator nodes have kept their `group` flag —
+`PModel.a2`, `PModel.reassoc_chainS` —, then `C16_chain_passes_identity` twice.) -/
 def C16_reassoc_printed_stmt : Prop :=
   ∀ (toks : Array PModel.PTok) (I : List Char → Name) (nm : Name → List Char) (t : Tm),
     PrintDerives.noImplicitArrow t = true → PrintDerives.noNegLit t = true →
@@ -766,8 +767,12 @@ def C16_reassoc_printed_stmt : Prop :=
     ∃ r st s3, PModel.runParser toks = some (r, st) ∧ RewriteMore.reassocAll r.term = some s3 ∧
       RewriteMore.strip s3 = PModel.lsrc I nm t
 
-/-- Stage B (PENDING, not started: via `toDB` of Props/C08.lean and `C08_resolve_complete_fixed`): name resolution of any
-tree that is the tree of `t` up to ranges, flags and errors, in the scope `names`, returns `canon t` without error. -/
+theorem C16_reassoc_printed : C16_reassoc_printed_stmt :=
+  fun toks I nm t h1 h2 h3 => PModel.reassocAll_printed toks I nm t h1 h2 h3
+
+/-- Stage B, full statement (PENDING: proved for terms without definition group, `C16_resolve_printed_nolet`; the `let`
+arm of `toDB` — `letNames`, `Stack.bindAll`, `toDBChain` on `PModel.lsrcDefs` — is not done): name resolution of any tree that
+is the tree of `t` up to ranges, flags and errors, in the scope `names`, returns `canon t` without error. -/
 def C16_resolve_printed_stmt : Prop :=
   ∀ (I : List Char → Name) (nm : Name → List Char) (names : List Name) (t : Tm) (s : PModel.Src),
     (∀ x, I (nm x) = x) → names.Nodup → (∀ x ∈ names, x ≠ PModel.placeholder) →
@@ -775,3 +780,49 @@ def C16_resolve_printed_stmt : Prop :=
     ∃ rt st, PModel.resolve s (PModel.initialContext names).length
         { ctx := PModel.initialContext names, errors := [], nextHole := 0 } = some (rt, st) ∧
       rt.erase = PModel.canon t ∧ st.errors = []
+
+/-- **Stage B for terms without definition group** (`PModel.noLet`): name resolution of any tree that is the tree of `t` up
+to ranges, flags and errors, in the scope `names` (pairwise distinct, none the placeholder), returns `canon t` and reports no
+error.  Via the specification `toDB` of Props/C08.lean (`PModel.toDB_lsrc`: on the stack of the scope the tree resolves to
+`canon t`), `C08_resolve_complete_fixed`, and `PModel.initialContext_inv` (the initial name→depth map describes that stack). -/
+def C16_resolve_printed_nolet_stmt : Prop :=
+  ∀ (I : List Char → Name) (nm : Name → List Char) (names : List Name) (t : Tm) (s : PModel.Src),
+    (∀ x, I (nm x) = x) → names.Nodup → (∀ x ∈ names, x ≠ PModel.placeholder) → PModel.noLet t = true →
+    PModel.scopedOK names.reverse t = true → RewriteMore.strip s = PModel.lsrc I nm t →
+    ∃ rt st, PModel.resolve s (PModel.initialContext names).length
+        { ctx := PModel.initialContext names, errors := [], nextHole := 0 } = some (rt, st) ∧
+      rt.erase = PModel.canon t ∧ st.errors = []
+theorem C16_resolve_printed_nolet : C16_resolve_printed_nolet_stmt :=
+  fun I nm names t s h1 h2 h3 h4 h5 h6 => PModel.resolve_printed_nolet I nm names t s h1 h2 h3 h4 h5 h6
+
+/-- **Reading a printed term back** (terms without definition group): print, take any token array with the printed kinds,
+run the parse phase, the three re-association passes and name resolution in the scope `names`: the result is `canon t` (`t`
+up to the names of unused Π binders), and no error is reported. -/
+def C16_read_back_nolet_stmt : Prop :=
+  ∀ (toks : Array PModel.PTok) (I : List Char → Name) (nm : Name → List Char) (names : List Name) (t : Tm),
+    (∀ x, I (nm x) = x) → names.Nodup → (∀ x ∈ names, x ≠ PModel.placeholder) → PModel.noLet t = true →
+    PModel.scopedOK names.reverse t = true →
+    PrintDerives.noImplicitArrow t = true → PrintDerives.noNegLit t = true →
+    toks.toList.map (·.kind) = (PrintDerives.printKinds nm t).map (PModel.kindP I) →
+    PModel.readBack toks names = some (PModel.canon t, [])
+theorem C16_read_back_nolet : C16_read_back_nolet_stmt :=
+  fun toks I nm names t h1 h2 h3 h4 h5 h6 h7 h8 =>
+    PModel.read_back_nolet toks I nm names t h1 h2 h3 h4 h5 h6 h7 h8
+
+/-- non-vacuity: `(b : int -> int) => d (b (b 1)) (b 2 + 1)` in the scope `[d]` (names = lengths of runs of `a`) -/
+example : ∃ (toks : Array PModel.PTok) (I : List Char → Name) (nm : Name → List Char) (names : List Name) (t : Tm),
+    (∀ x, I (nm x) = x) ∧ names.Nodup ∧ (∀ x ∈ names, x ≠ PModel.placeholder) ∧ PModel.noLet t = true ∧
+    PModel.scopedOK names.reverse t = true ∧ PrintDerives.noImplicitArrow t = true ∧
+    PrintDerives.noNegLit t = true ∧
+    toks.toList.map (·.kind) = (PrintDerives.printKinds nm t).map (PModel.kindP I) :=
+  ⟨((PrintDerives.printKinds (fun n => List.replicate n 'a')
+      (.lam 1 false (.pi 2 false .int .int)
+        (.app (.app (.var 3 1) (.app (.var 1 0) (.app (.var 1 0) (.lit 1))))
+          (.bin .sum (.app (.var 1 0) (.lit 2)) (.lit 1))))).map
+      (fun k => (⟨PModel.kindP List.length k, ⟨0, 0⟩⟩ : PModel.PTok))).toArray,
+   List.length, fun n => List.replicate n 'a', [3],
+   .lam 1 false (.pi 2 false .int .int)
+        (.app (.app (.var 3 1) (.app (.var 1 0) (.app (.var 1 0) (.lit 1))))
+          (.bin .sum (.app (.var 1 0) (.lit 2)) (.lit 1))),
+   fun x => by simp, by decide, by decide, by decide, by decide, by decide, by decide,
+   by simp [Function.comp_def]⟩
